@@ -17,8 +17,8 @@ func (vc *VC) call(c *ssa.CallCommon, res *ssa.Call, pos token.Pos) SVal {
 	}
 	if c.IsInvoke() {
 		recv := vc.val(c.Value)
-		rtyp := c.Value.Type()
-		if nt, ok := types.Unalias(rtyp).(*types.Named); ok && nt.TypeArgs() != nil && nt.TypeArgs().Len() > 0 {
+		rtyp := types.Unalias(c.Value.Type())
+		if nt, ok := rtyp.(*types.Named); ok && nt.TypeArgs() != nil && nt.TypeArgs().Len() > 0 {
 			rtyp = nt.Origin() // contracts of generic interfaces are keyed by the uninstantiated type
 		}
 		key := "(" + typeString(rtyp) + ")." + c.Method.Name()
@@ -101,19 +101,20 @@ func (vc *VC) havocAll() {
 // intrinsic: functions given their exact semantics by the engine.
 func (vc *VC) intrinsic(f *ssa.Function, args []SVal, rt types.Type, pos token.Pos) (SVal, bool) {
 	switch f.String() {
+	// bit reinterpretation: abstract functions of the prelude (f32bits/f32OfBits are inverse on
+	// values; the pattern itself is opaque). Assumed semantics of the math package intrinsics.
 	case "math.Float32bits":
-		bv := vc.declare(vc.sym("f32bits"), "(_ BitVec 32)")
-		// all NaNs map to some NaN pattern; bit pattern is exact for non-NaN
-		vc.fact("true", eq(sx("(_ to_fp 8 24)", bv), args[0].S))
-		return intV(sx("bv2nat", bv), rt), true
+		vc.note("math.Float32bits/Float32frombits: abstract inverse bit reinterpretations (assumed)")
+		return intV(sx("f32bits", args[0].S), rt), true
 	case "math.Float64bits":
-		bv := vc.declare(vc.sym("f64bits"), "(_ BitVec 64)")
-		vc.fact("true", eq(sx("(_ to_fp 11 53)", bv), args[0].S))
-		return intV(sx("bv2nat", bv), rt), true
+		vc.note("math.Float64bits/Float64frombits: abstract inverse bit reinterpretations (assumed)")
+		return intV(sx("f64bits", args[0].S), rt), true
 	case "math.Float32frombits":
-		return SVal{K: KFloat, T: rt, S: sx("(_ to_fp 8 24)", sx("(_ int2bv 32)", args[0].S))}, true
+		vc.note("math.Float32bits/Float32frombits: abstract inverse bit reinterpretations (assumed)")
+		return SVal{K: KFloat, T: rt, S: sx("f32OfBits", args[0].S)}, true
 	case "math.Float64frombits":
-		return SVal{K: KFloat, T: rt, S: sx("(_ to_fp 11 53)", sx("(_ int2bv 64)", args[0].S))}, true
+		vc.note("math.Float64bits/Float64frombits: abstract inverse bit reinterpretations (assumed)")
+		return SVal{K: KFloat, T: rt, S: sx("f64OfBits", args[0].S)}, true
 	}
 	return SVal{}, false
 }
@@ -124,6 +125,9 @@ func (vc *VC) applyContract(con *Contract, key string, names []string, args []SV
 	vc.nCalls++
 	if con == nil {
 		vc.uncontracted[key] = true
+		if len(vc.enclosingLoops(vc.cur)) > 0 {
+			unsup("call to %s (no contract) inside a loop: it may modify any memory", key)
+		}
 		vc.note("call to %s without contract: results and all memory havocked, callee panics not excluded", key)
 		vc.havocAll()
 		return vc.fresh(rt, "uc")
